@@ -181,9 +181,24 @@ def rule_R15(text, file, line0, log):
     return re.sub(r'(?<![\w:])::scale::', 'crate::scale::', text)
 
 
+def rule_R18(text, file, line0, log):
+    """serde-derive output: `_serde::__privateNNN::Result` (serde's re-export of core::result::Result under a version-specific
+    private module) -> `core::result::Result`; `false as usize` (the constant the derive starts its field count with) -> `0usize`"""
+    n = len(re.findall(r'\b_serde::__private\d*::Result\b', text))
+    if n:
+        log.rw('R18', file, line0, '_serde::__privateNNN::Result (%d occurrences)' % n, 'core::result::Result')
+        text = re.sub(r'\b_serde::__private\d*::Result\b', 'core::result::Result', text)
+    n = len(re.findall(r'\bfalse as usize\b', text))
+    if n:
+        log.rw('R18', file, line0, 'false as usize (%d occurrences)' % n, '0usize')
+        text = re.sub(r'\bfalse as usize\b', '0usize', text)
+    return text
+
+
 def global_rules(text, file, line0, log, **kw):
     text = strip_attrs_and_vis(text, file, line0, log, **kw)
     text = rule_R15(text, file, line0, log)
+    text = rule_R18(text, file, line0, log)
     text = rule_R9(text, file, line0, log)
     text = rule_R1(text, file, line0, log)
     text = rule_R2(text, file, line0, log)
@@ -257,6 +272,12 @@ def fn_shape(text, mask):
         k = len(re.findall(r'\.\s*%s\s*(?:::\s*<[^()]*>\s*)?\(' % a, code))
         if k:
             sh['.' + a] = k
+    # every function / method name the body calls: a callee that was not called on the baseline is a callee whose contract the
+    # proof has never depended on (it may have none, or a weak library one) - same "needs contract" class
+    body = code[code.find('{'):] if '{' in code else ''
+    calls = set(re.findall(r'([A-Za-z_]\w*)\s*(?:::\s*<[^()]*?>\s*)?\(', body))
+    calls -= {'if', 'while', 'match', 'for', 'loop', 'return', 'Some', 'Ok', 'Err', 'fn', 'in', 'let', 'else', 'move', 'as', 'mut', 'ref'}
+    sh['calls'] = sorted(calls)
     return sh
 
 
@@ -430,6 +451,9 @@ class Extractor:
         m = re.match(r'\s*(?:pub\s+)?(?:open\s+|closed\s+|uninterp\s+|broadcast\s+|axiom\s+)*(?:spec|proof|exec)?\s*fn\s+(\w+)', raw)
         if m:
             self._cur_tmpl_fn = 'tmpl::' + m.group(1)
+            if not hasattr(self.log, 'template_fns'):
+                self.log.template_fns = set()
+            self.log.template_fns.add(m.group(1))
         return self._cur_tmpl_fn
 
     # -------------------------------------------------------------------------------------
@@ -1007,9 +1031,11 @@ class Extractor:
 
 # ------------------------------------------------------------------------------------------
 
-def expanded_source(repo, cache_dir):
-    """macro-expanded src/lib.rs of the current working tree (rustc does the expansion)"""
+def expanded_source(repo, cache_dir, features=None):
+    """macro-expanded src/lib.rs of the current working tree (rustc does the expansion); features=None: the crate's default features"""
     h = hashlib.sha1()
+    if features:
+        h.update(('features=' + ','.join(sorted(features))).encode())
     for root, _, files in sorted(os.walk(os.path.join(repo, 'src'))):
         for f in sorted(files):
             if f.endswith('.rs'):
@@ -1022,7 +1048,8 @@ def expanded_source(repo, cache_dir):
     if not os.path.exists(path):
         tdir = os.path.join(cache_dir, 'expand-target')
         env = dict(os.environ, CARGO_NET_OFFLINE='true', CARGO_TARGET_DIR=tdir)
-        p = subprocess.run(['cargo', '+nightly', 'rustc', '--lib', '--offline', '--', '-Zunpretty=expanded'],
+        fl = ['--no-default-features', '--features', ','.join(sorted(features))] if features else []
+        p = subprocess.run(['cargo', '+nightly', 'rustc', '--lib', '--offline'] + fl + ['--', '-Zunpretty=expanded'],
                            cwd=repo, env=env, stdout=subprocess.PIPE, stderr=subprocess.PIPE, text=True)
         if p.returncode != 0:
             raise LostAnchor('macro expansion by rustc failed:\n' + p.stderr[-2000:])
